@@ -161,4 +161,93 @@ theorem lrun_spec (B : Int) (prog : Array Ins) (orc : Nat → Bool) (fuel : Nat)
     | done => exact h
     | expired => exact h
 
+/-- a turn of the loop that goes on has charged at least one tick -/
+theorem lstep_progress (prog : Array Ins) (taken : Bool) (s s' : LSt) (hp : 0 < s.cost)
+    (h : lstep prog taken s = (.running, s')) : s.ticks + 1 ≤ s'.ticks := by
+  unfold lstep at h
+  split at h
+  · cases h
+  · have hc := charge_spec fetchCharge s hp
+    rw [fetchCharge_one] at hc h
+    obtain ⟨a, b, c, d, e, f, g⟩ := hc
+    generalize hr : charge s 1 = r at *
+    obtain ⟨o, s1⟩ := r
+    simp only at a b c d e f g
+    rcases g with ⟨g1, g2, g3⟩ | ⟨g1, g2, g3⟩
+    · subst g1
+      simp only at h
+      split at h
+      · injection h with _ h; subst h; show s.ticks + 1 ≤ s1.ticks; omega
+      · injection h with _ h; subst h; show s.ticks + 1 ≤ s1.ticks; omega
+      · split at h
+        · injection h with _ h; subst h; show s.ticks + 1 ≤ s1.ticks; omega
+        · injection h with _ h; subst h; show s.ticks + 1 ≤ s1.ticks; omega
+      · injection h with _ h; subst h; show s.ticks + 1 ≤ s1.ticks; omega
+      · split at h
+        · cases h
+        · injection h with _ h; subst h; show s.ticks + 1 ≤ s1.ticks; omega
+      · rename_i k _
+        -- callbacks only add ticks
+        have hmono : ∀ (k : Nat) (t : LSt), 0 < t.cost → t.ticks ≤ (callbacks t k).2.ticks := by
+          intro k
+          induction k with
+          | zero => intro t _; simp [callbacks]
+          | succ k ih =>
+            intro t ht
+            have hcs := charge_spec callbackCharge t ht
+            rw [callbackCharge_one] at hcs
+            unfold callbacks
+            rw [callbackCharge_one]
+            obtain ⟨_, _, _, _, _, _, g'⟩ := hcs
+            generalize hq : charge t 1 = q at *
+            obtain ⟨o2, t1⟩ := q
+            simp only at g'
+            rcases g' with ⟨x1, x2, x3⟩ | ⟨x1, x2, x3⟩
+            · subst x1
+              simp only
+              have := ih { t1 with cbs := t1.cbs + 1 } x3
+              have e1 : ({ t1 with cbs := t1.cbs + 1 } : LSt).ticks = t1.ticks := rfl
+              omega
+            · subst x1
+              simp only
+              omega
+        have hm := hmono k s1 g3
+        generalize hq : callbacks s1 k = q at *
+        obtain ⟨o2, s2⟩ := q
+        simp only at hm
+        split at h
+        · rename_i s3 heq
+          injection heq with h1 h2
+          subst h1 h2
+          injection h with _ h; subst h
+          show s.ticks + 1 ≤ s2.ticks
+          omega
+        · rename_i hne
+          exact (hne s' h).elim
+    · subst g1
+      simp only at h
+      cases h
+
+/-- after n turns that all went on, at least n ticks are charged, and the accounting still holds -/
+theorem lrun_running (B : Int) (prog : Array Ins) (orc : Nat → Bool) (fuel : Nat) : ∀ s : LSt, LInv B s → 0 < s.cost →
+    (lrun prog orc fuel s).1 = .running → s.ticks + fuel ≤ (lrun prog orc fuel s).2.ticks := by
+  induction fuel with
+  | zero => intro s _ _ _; simp [lrun]
+  | succ f ih =>
+    intro s hi hp hrun
+    have hstep := lstep_spec B prog (orc f) s hi hp
+    unfold lrun at hrun ⊢
+    generalize hr : lstep prog (orc f) s = r at *
+    obtain ⟨o, s1⟩ := r
+    cases o with
+    | running =>
+      simp only at hrun ⊢
+      have hpr := lstep_progress prog (orc f) s s1 hp hr
+      rcases hstep.2 with ⟨x, _⟩ | ⟨_, y⟩
+      · cases x
+      · have := ih s1 hstep.1 y hrun
+        omega
+    | done => simp at hrun
+    | expired => simp at hrun
+
 end NV.C04
